@@ -456,17 +456,24 @@ func c05SortedIn(c *core.Ctx, rule string, rels []string) {
 					if mc, isMC := facts.Resolve(ci.Common().Args[1]).(*ssa.MakeClosure); isMC {
 						lit := mc.Fn.(*ssa.Function)
 						// the equality literal calls the sort comparator and tests == 0
-						for _, cc := range facts.CallsIn(lit) {
-							if facts.ResolveFree(cc.Common().Value) == facts.ResolveFree(sortCmp) {
-								for _, ref := range *cc.Value().Referrers() {
-									if bo, isBo := ref.(*ssa.BinOp); isBo && bo.Op == token.EQL {
-										if k, isK := facts.ConstInt(bo.Y); isK && k == 0 {
-											ok = true
-										}
+						// every return of the literal is the truth of `cmp(a, b) == 0`
+						// (in any spelling: == 0, !(… != 0))
+						ok = true
+						nret := 0
+						for _, r := range returnsOf(lit) {
+							nret++
+							x, op, y, isCmp := facts.Cmp(facts.FlattenOne(facts.Cond{V: facts.RetVal(r, 0), Pos: true}))
+							good := false
+							if isCmp && op == token.EQL {
+								if k, isK := facts.ConstInt(y); isK && k == 0 {
+									if cc, isCall := facts.Resolve(x).(*ssa.Call); isCall && facts.ResolveFree(cc.Call.Value) == facts.ResolveFree(sortCmp) {
+										good = true
 									}
 								}
 							}
+							ok = ok && good
 						}
+						ok = ok && nret > 0
 					}
 				}
 				c.Check(ok, rule, facts.FuncName(fn)+"/compact-same-comparator", ci.Pos(), "de-duplication uses the sort comparator (== 0)", "CompactFunc does not de-duplicate with the comparator the slice was sorted with")
